@@ -1,6 +1,80 @@
 from harness.props._engine_common import make
 
-explore, search, replay = make({"C06"})
+
+def error_identity_cases(ctx, replay=None):
+    """What `run` raises when a call fails, next to other things that can go wrong around it:
+    * a progress DISPLAY whose output fails (an HTML page written through a callable that raises, a console whose stream is
+      closed) - also inside a composite: the caller still gets the CallError of the failed call, caused by the call's exception;
+    * `retry=n` with an operation (call, store write, read, modified-time query) that fails on EVERY attempt: the CallError's cause
+      is the very exception object the last attempt raised."""
+    import contextlib
+    import io
+    import threading
+
+    import uberjob
+    from harness import retry_corr
+    from uberjob.progress import composite_progress, console_progress, html_progress
+    viol, done = [], 0
+    kinds = [replay["error_case"]] if replay else (
+        [["display", k, w] for k in ("html", "console-closed", "composite") for w in (1, 3)]
+        + [["retry", op, kind, n] for op, kind in (("call", "call"), ("write", "call"), ("read", "call"), ("mtime", "call"), ("read", "source"), ("mtime", "source"))
+           for n in (2, 3)])
+    for case in kinds:
+        if case[0] == "display":
+            _, k, workers = case
+
+            class Boom(Exception):
+                pass
+            raised = []
+
+            def fails():
+                e = Boom("the call fails")
+                raised.append(e)
+                raise e
+
+            def bad_output(_bytes):
+                raise ConnectionError("the page cannot be written")
+            plan = uberjob.Plan()
+            x = plan.call(fails)
+            closed = io.StringIO()
+            closed.close()
+            prog = {"html": html_progress(bad_output), "console-closed": console_progress, "composite": composite_progress(html_progress(bad_output), console_progress)}[k]
+            hook, threading.excepthook = threading.excepthook, (lambda a: None)      # the display's own thread may die of its output
+            try:
+                with contextlib.redirect_stdout(closed if k == "console-closed" else io.StringIO()):
+                    try:
+                        uberjob.run(plan, output=x, progress=prog, max_workers=workers)
+                        got = None
+                    except BaseException as e:      # noqa: BLE001
+                        got = e
+            finally:
+                threading.excepthook = hook
+            done += 1
+            if not (isinstance(got, uberjob.CallError) and raised and got.__cause__ is raised[0]):
+                viol.append({"property": "C06", "what": f"a call failed and the {k} progress display could not write its output: run raised "
+                             f"{got!r} (cause {getattr(got, '__cause__', None)!r}) instead of the CallError of the failed call",
+                             "replay_fn": "error_identity", "error_case": case})
+                break
+        else:
+            _, op, kind, n = case
+            reply, w = retry_corr.run_case({"what": "run", "op": op, "kind": kind, "n": n, "j": n})
+            done += 1
+            if w:
+                viol.append({"property": "C06", "what": f"retry={n}, every attempt fails: {w}", "replay_fn": "error_identity", "error_case": case})
+                break
+    return {"violations": viol, "disagreements": [], "coverage": {"error_identity_cases": done}}
+
+
+def _extras(ctx, replay=None):
+    if replay is not None:
+        if replay.get("replay_fn") == "error_identity":
+            r = error_identity_cases(ctx, replay=replay)
+            return r["violations"][0]["what"] if r["violations"] else None
+        return None
+    return error_identity_cases(ctx)
+
+
+explore, search, replay = make({"C06"}, extra=_extras)
 
 
 def probe_known(ctx, k):
